@@ -13,5 +13,17 @@ CHECKS = {
         note='trusted: pyvc encoding, z3/cvc5, attrs-generated __init__ reconstruction, finiteness of Python sets, '
              'CPython finaliser timing; node-id ownership is bounded-only (one known finding recorded).'),
 }
+CHECKS['C15'] = dict(
+    category='other',
+    technique='contract-based deductive verification of the pixel-codec kernels (pyvc bit-vector VCs over the real '
+              'loop bodies and slice assignments, z3); bounded container round trip as stand-in',
+    text='For all 20 writable uncompressed formats the real save and load code is executed symbolically in sequence '
+         'on buffers of arbitrary size: save-then-load equals the documented quantisation, load-then-save reproduces '
+         'the stored bytes, each iteration touches only its own pixel, every stored value fits a byte; Frame pixel '
+         'access is proved bounds-checked and scale_down (bilinear) proved to average exactly the four parent texels '
+         'with all indices in range. The VTF container (header, resources, frame order, sheets, lazy loading) is only '
+         'exercised by a bounded round-trip stand-in and is not counted as proved - hence category other.',
+    note='trusted: pyvc encoding (64-bit vectors with no-overflow obligations), z3, memoryview slice semantics, '
+         'non-overlap of pixel and data buffers; unverified: Cython twin, DXT decoders, nearest-neighbour filters.')
 _PENDING = 'not yet built in this session (planned, see DESIGN.md section 3); no check is registered so nothing is claimed'
 NOT_APPLICABLE = {f'C{i:02d}': _PENDING for i in range(1, 21) if f'C{i:02d}' not in CHECKS}
